@@ -212,11 +212,12 @@ func (p *PeerScoreParams) validate() error {
 	}
 
 	// check the behaviour penalty
-	if !p.SkipAtomicValidation || p.BehaviourPenaltyWeight != 0 || p.BehaviourPenaltyThreshold != 0 {
+	if !p.SkipAtomicValidation || p.BehaviourPenaltyWeight != 0 || p.BehaviourPenaltyThreshold != 0 || p.BehaviourPenaltyDecay != 0 {
 		if p.BehaviourPenaltyWeight > 0 || isInvalidNumber(p.BehaviourPenaltyWeight) {
 			return fmt.Errorf("invalid BehaviourPenaltyWeight; must be negative (or 0 to disable) and a valid number")
 		}
-		if p.BehaviourPenaltyWeight != 0 && (p.BehaviourPenaltyDecay <= 0 || p.BehaviourPenaltyDecay >= 1 || isInvalidNumber(p.BehaviourPenaltyDecay)) {
+		// the decay is applied to the counter even when the weight is 0, so it may only be left at 0 then
+		if (p.BehaviourPenaltyWeight != 0 || p.BehaviourPenaltyDecay != 0) && (p.BehaviourPenaltyDecay <= 0 || p.BehaviourPenaltyDecay >= 1 || isInvalidNumber(p.BehaviourPenaltyDecay)) {
 			return fmt.Errorf("invalid BehaviourPenaltyDecay; must be between 0 and 1")
 		}
 		if p.BehaviourPenaltyThreshold < 0 || isInvalidNumber(p.BehaviourPenaltyThreshold) {
@@ -291,7 +292,7 @@ func (p *TopicScoreParams) validateTimeInMeshParams() error {
 	if p.TimeInMeshWeight != 0 && p.TimeInMeshQuantum <= 0 {
 		return fmt.Errorf("invalid TimeInMeshQuantum; must be positive")
 	}
-	if p.TimeInMeshWeight != 0 && (p.TimeInMeshCap <= 0 || isInvalidNumber(p.TimeInMeshCap)) {
+	if isInvalidNumber(p.TimeInMeshCap) || p.TimeInMeshWeight != 0 && p.TimeInMeshCap <= 0 {
 		return fmt.Errorf("invalid TimeInMeshCap; must be positive and a valid number")
 	}
 
@@ -312,11 +313,11 @@ func (p *TopicScoreParams) validateMessageDeliveryParams() error {
 	if p.FirstMessageDeliveriesWeight < 0 || isInvalidNumber(p.FirstMessageDeliveriesWeight) {
 		return fmt.Errorf("invallid FirstMessageDeliveriesWeight; must be positive (or 0 to disable) and a valid number")
 	}
-	// the decay is applied to the counter even when the weight is 0, so it must always be a valid number
-	if isInvalidNumber(p.FirstMessageDeliveriesDecay) || p.FirstMessageDeliveriesWeight != 0 && (p.FirstMessageDeliveriesDecay <= 0 || p.FirstMessageDeliveriesDecay >= 1) {
+	// the decay is applied to the counter even when the weight is 0, so it may only be left at 0 then
+	if (p.FirstMessageDeliveriesWeight != 0 || p.FirstMessageDeliveriesDecay != 0) && (p.FirstMessageDeliveriesDecay <= 0 || p.FirstMessageDeliveriesDecay >= 1 || isInvalidNumber(p.FirstMessageDeliveriesDecay)) {
 		return fmt.Errorf("invalid FirstMessageDeliveriesDecay; must be between 0 and 1")
 	}
-	if p.FirstMessageDeliveriesWeight != 0 && (p.FirstMessageDeliveriesCap <= 0 || isInvalidNumber(p.FirstMessageDeliveriesCap)) {
+	if isInvalidNumber(p.FirstMessageDeliveriesCap) || p.FirstMessageDeliveriesWeight != 0 && p.FirstMessageDeliveriesCap <= 0 {
 		return fmt.Errorf("invalid FirstMessageDeliveriesCap; must be positive and a valid number")
 	}
 
@@ -342,13 +343,14 @@ func (p *TopicScoreParams) validateMeshMessageDeliveryParams() error {
 	if p.MeshMessageDeliveriesWeight > 0 || isInvalidNumber(p.MeshMessageDeliveriesWeight) {
 		return fmt.Errorf("invalid MeshMessageDeliveriesWeight; must be negative (or 0 to disable) and a valid number")
 	}
-	if p.MeshMessageDeliveriesWeight != 0 && (p.MeshMessageDeliveriesDecay <= 0 || p.MeshMessageDeliveriesDecay >= 1 || isInvalidNumber(p.MeshMessageDeliveriesDecay)) {
+	// the counter is maintained (and compared with the threshold) even when the weight is 0
+	if (p.MeshMessageDeliveriesWeight != 0 || p.MeshMessageDeliveriesDecay != 0) && (p.MeshMessageDeliveriesDecay <= 0 || p.MeshMessageDeliveriesDecay >= 1 || isInvalidNumber(p.MeshMessageDeliveriesDecay)) {
 		return fmt.Errorf("invalid MeshMessageDeliveriesDecay; must be between 0 and 1")
 	}
-	if p.MeshMessageDeliveriesWeight != 0 && (p.MeshMessageDeliveriesCap <= 0 || isInvalidNumber(p.MeshMessageDeliveriesCap)) {
+	if isInvalidNumber(p.MeshMessageDeliveriesCap) || p.MeshMessageDeliveriesWeight != 0 && p.MeshMessageDeliveriesCap <= 0 {
 		return fmt.Errorf("invalid MeshMessageDeliveriesCap; must be positive and a valid number")
 	}
-	if p.MeshMessageDeliveriesWeight != 0 && (p.MeshMessageDeliveriesThreshold <= 0 || isInvalidNumber(p.MeshMessageDeliveriesThreshold)) {
+	if isInvalidNumber(p.MeshMessageDeliveriesThreshold) || p.MeshMessageDeliveriesWeight != 0 && p.MeshMessageDeliveriesThreshold <= 0 {
 		return fmt.Errorf("invalid MeshMessageDeliveriesThreshold; must be positive and a valid number")
 	}
 	if p.MeshMessageDeliveriesWindow < 0 {
@@ -375,8 +377,8 @@ func (p *TopicScoreParams) validateMessageFailurePenaltyParams() error {
 	if p.MeshFailurePenaltyWeight > 0 || isInvalidNumber(p.MeshFailurePenaltyWeight) {
 		return fmt.Errorf("invalid MeshFailurePenaltyWeight; must be negative (or 0 to disable) and a valid number")
 	}
-	// the decay is applied to the counter even when the weight is 0, so it must always be a valid number
-	if isInvalidNumber(p.MeshFailurePenaltyDecay) || p.MeshFailurePenaltyWeight != 0 && (p.MeshFailurePenaltyDecay <= 0 || p.MeshFailurePenaltyDecay >= 1) {
+	// the decay is applied to the counter even when the weight is 0, so it may only be left at 0 then
+	if (p.MeshFailurePenaltyWeight != 0 || p.MeshFailurePenaltyDecay != 0) && (p.MeshFailurePenaltyDecay <= 0 || p.MeshFailurePenaltyDecay >= 1 || isInvalidNumber(p.MeshFailurePenaltyDecay)) {
 		return fmt.Errorf("invalid MeshFailurePenaltyDecay; must be between 0 and 1")
 	}
 
